@@ -558,7 +558,7 @@ func (ev *Ev) index(e *SExpr) *Val {
 		return ev.fr.mapLoadVal(ev.st, root, ks, base.X, kt, under(t).(*types.Map).Elem(), "")
 	case KStr:
 		i := ev.intTerm(e.Args[1])
-		return mathVal(App("str.at", SInt, base.X, i))
+		return mathVal(App("gstr.at", SInt, base.X, i))
 	case KMath:
 		// model map: base.X is an array term
 		if base.X.S.IsArr() {
@@ -740,7 +740,7 @@ func (ev *Ev) call(e *SExpr) *Val {
 		case KSlice:
 			return mathVal(v.Len)
 		case KStr:
-			l := App("str.len", SInt, v.X)
+			l := App("gstr.len", SInt, v.X)
 			ev.c.addFact(Le(Num(0), l))
 			return mathVal(l)
 		case KArr:
